@@ -21,7 +21,12 @@ pub enum Related {
   /// change the last byte so that the base64 encodings differ only towards the end
   LastByte(u8),
   Other(String),
+  /// one character from a list of "invisible" decorations (BOM, NUL, whitespace, zero-width, combining mark)
+  /// prepended (false) or appended (true)
+  Decorate(bool, u8),
 }
+
+pub const DECOR: [&str; 14] = ["\u{feff}", "\0", " ", "\t", "\n", "\r\n", "\u{200b}", "\u{301}", "\u{a0}", "\u{3000}", "\u{2028}", "\u{7f}", "\u{200e}", "\u{1}"];
 
 #[derive(Clone, Debug, Serialize, Deserialize)]
 pub enum SegEdit {
@@ -32,7 +37,13 @@ pub enum SegEdit {
   Remove,
   /// keep the dot, drop the segment's characters
   Blank,
+  /// append n base64 characters to the footer segment (n from a list around powers of two)
+  Extend(u8),
+  /// cut n characters off the end of the footer segment
+  Truncate(u8),
 }
+
+pub const SEG_DELTAS: [usize; 12] = [1, 2, 3, 4, 255, 256, 257, 512, 1024, 65535, 65536, 65537];
 
 #[derive(Clone, Debug, Serialize, Deserialize)]
 pub struct FooterCase {
@@ -78,6 +89,10 @@ pub fn related(orig: &Option<String>, rel: &Related) -> Option<String> {
       }
     }
     Related::Other(s) => Some(s.clone()),
+    Related::Decorate(after, i) => {
+      let d = DECOR[(*i as usize) % DECOR.len()];
+      Some(if *after { format!("{o}{d}") } else { format!("{d}{o}") })
+    }
   }
 }
 
@@ -109,8 +124,8 @@ impl Sub for FooterBinding {
     cl.tag(format!("{}:{}", p.label(), s.layer.label()));
     cl.tag(format!("related:{}", match &c.rel {
       Related::Same => "same", Related::EmptyVsNone => "none-vs-empty", Related::None => "none", Related::Empty => "empty", Related::Prefix(_) => "prefix",
-      Related::Extend(_) => "extension", Related::CaseFlip => "case", Related::LastByte(_) => "last-byte", Related::Other(_) => "unrelated" }));
-    cl.tag(format!("edit:{:?}", c.edit));
+      Related::Extend(_) => "extension", Related::CaseFlip => "case", Related::LastByte(_) => "last-byte", Related::Other(_) => "unrelated", Related::Decorate(..) => "invisible-decoration" }));
+    cl.tag(format!("edit:{}", match c.edit { SegEdit::Keep => "keep", SegEdit::Replace => "replace", SegEdit::Remove => "remove", SegEdit::Blank => "blank", SegEdit::Extend(_) => "extend", SegEdit::Truncate(_) => "truncate" }));
     // (iii) shape of the produced token
     let (header, pseg, fseg) = split_token(&t).expect("well-formed token");
     let want_seg = if norm(f).is_empty() { None } else { Some(b64(norm(f).as_bytes())) };
@@ -144,17 +159,31 @@ impl Sub for FooterBinding {
       }
       _ => {
         // token-side edit of the footer segment
+        let cur_seg = fseg.clone().unwrap_or_default();
         let new_seg: Option<String> = match c.edit {
           SegEdit::Replace => {
             if norm(&f2).is_empty() { None } else { Some(b64(norm(&f2).as_bytes())) }
           }
           SegEdit::Remove => None,
+          SegEdit::Extend(i) => Some(format!("{}{}", cur_seg, "A".repeat(SEG_DELTAS[(i as usize) % SEG_DELTAS.len()]))),
+          SegEdit::Truncate(i) => {
+            let n = SEG_DELTAS[(i as usize) % SEG_DELTAS.len()];
+            if n >= cur_seg.len() {
+              return Verdict::Discard;
+            }
+            Some(cur_seg[..cur_seg.len() - n].to_string())
+          }
           _ => Some(String::new()),
         };
         let edited_value: Option<String> = match c.edit {
           SegEdit::Replace => f2.clone(),
+          // what the edited segment decodes to, if it decodes at all
+          SegEdit::Extend(_) | SegEdit::Truncate(_) => new_seg.as_deref().and_then(unb64).and_then(|b| String::from_utf8(b).ok()),
           _ => None,
         };
+        if matches!(c.edit, SegEdit::Extend(_) | SegEdit::Truncate(_)) && fseg.is_none() && matches!(c.edit, SegEdit::Truncate(_)) {
+          return Verdict::Discard;
+        }
         if norm(&edited_value) == norm(f) {
           return Verdict::Discard; // the decoded footer value did not change
         }
@@ -173,7 +202,7 @@ impl Sub for FooterBinding {
           }
           match r {
             Err(e) => cl.tag(format!("rejected:{}", e.variant)),
-            Ok(o) => vio!("C05:accepted-edited-footer-segment:{}:{}:{:?}:{}", p.label(), s.layer.label(), c.edit, who;
+            Ok(o) => vio!("C05:accepted-edited-footer-segment:{}:{}:{}:{}", p.label(), s.layer.label(), match c.edit { SegEdit::Replace => "Replace", SegEdit::Remove => "Remove", SegEdit::Blank => "Blank", SegEdit::Extend(_) => "Extend", SegEdit::Truncate(_) => "Truncate", SegEdit::Keep => "Keep" }, who;
               "footer segment edited ({:?}: {:?} -> {:?}) yet accepted under the {} footer {:?}, returned {:?}; token {}", c.edit, f, edited_value, who, expect, o.message(), edited),
           }
         }
@@ -194,12 +223,13 @@ fn rel_strategy() -> BoxedStrategy<Related> {
     1 => Just(Related::CaseFlip),
     2 => any::<u8>().prop_map(Related::LastByte),
     2 => prop_oneof![gen::jsonish(16), gen::unicode(6)].prop_map(Related::Other),
+    3 => (any::<bool>(), any::<u8>()).prop_map(|(a, i)| Related::Decorate(a, i)),
   ]
   .boxed()
 }
 
 fn case(proto: Proto, layer: Layer) -> BoxedStrategy<FooterCase> {
-  (tok_spec(proto, layer), rel_strategy(), prop_oneof![4 => Just(SegEdit::Keep), 2 => Just(SegEdit::Replace), 1 => Just(SegEdit::Remove), 1 => Just(SegEdit::Blank)])
+  (tok_spec(proto, layer), rel_strategy(), prop_oneof![8 => Just(SegEdit::Keep), 4 => Just(SegEdit::Replace), 2 => Just(SegEdit::Remove), 2 => Just(SegEdit::Blank), 3 => any::<u8>().prop_map(SegEdit::Extend), 1 => any::<u8>().prop_map(SegEdit::Truncate)])
     .prop_map(|(tok, rel, edit)| FooterCase { tok, rel, edit })
     .boxed()
 }
